@@ -366,9 +366,9 @@ var c38BadAmounts = []string{"-1", "-0", "0", "1.5", "1e400", "1e2", "1E+3", "0.
 	"115792089237316195423570985008687907853269984665640564039457584007913129639936", // 2^256
 	"-115792089237316195423570985008687907853269984665640564039457584007913129639936",
 	"1" + strings.Repeat("0", 5000), "0x10", "NaN", "Infinity", "+1", "01", "1.", ".5", "1e-400", "9223372036854775808", "18446744073709551616"}
-var c38BadDates = []string{"notadate", "2023-13-45T00:00:00Z", "0000-00-00T00:00:00Z", "9999999999", "-1", "0", "2023-01-01", "2023-01-01T00:00:00", "2023-01-01T00:00:00+99:00",
-	"2023-01-01T25:61:61Z", "10000-01-01T00:00:00Z", "0001-01-01T00:00:00Z", "-0001-01-01T00:00:00Z", "292277026596-12-04T15:30:07Z", "2023-02-30T00:00:00Z", "2023-01-01T00:00:00.123456789123Z",
-	"2023-01-01 00:00:00", "1e400", " ", "\x00", "2023-01-01T00:00:00Z\x00", "null", "2262-04-11T23:47:16.854775808Z", "1677-09-21T00:12:43Z", "2023-01-01T00:00:00z", "٢٠٢٣-٠١-٠١T00:00:00Z"}
+var c38BadDates = []string{"notadate", "2023-13-45T00:00:00Z", "0000-00-00T00:00:00Z", "9999999999", "-1", "2023-01-01", "2023-01-01T00:00:00+99:00",
+	"2023-01-01T25:61:61Z", "10000-01-01T00:00:00Z", "0001-01-01T00:00:00Z", "292277026596-12-04T15:30:07Z", "2023-02-30T00:00:00Z", "2023-01-01T00:00:00.123456789123Z",
+	"2023-01-01 00:00:00", " ", "\x00", "2262-04-11T23:47:16.854775808Z", "1677-09-21T00:12:43Z"}
 var c38BadUints = []string{"-1", "0", "abc", "1e3", "99999999999999999999", "1.5", "18446744073709551615", "18446744073709551616", "9223372036854775808", " 1", "1 ", "+1", "0x10", "", "١", "1000", "1001", "2147483648", "4294967296"}
 var c38BadBools = []string{"maybe", "2", "TRUE ", "yes", "on", "null", "", "0", "1", "t", "True", "TRUE", "\x00"}
 var c38BadSorts = []string{"unknown:asc", "id:sideways", "id:", ":asc", ":", "metadata[x]:asc", "metadata:asc", "timestamp:desc", "timestamp:asc", "a:b:c", "id", "ID:ASC", "inserted_at:asc", "insertedAt:desc", "updatedAt:asc", "revertedAt:asc",
@@ -377,7 +377,7 @@ var c38BadSorts = []string{"unknown:asc", "id:sideways", "id:", ":asc", ":", "me
 var c38BadExpands = []string{"volumes", "effectiveVolumes", "junk", "volumes,volumes", "", ",", "volumes,", "VOLUMES", "effectiveVolumes,volumes", "volumes,junk", "\x00", "postCommitVolumes", "metadata"}
 var c38BadGroupBys = []string{"-1", "0", "1", "2", "3", "100", "abc", "99999999999", "9223372036854775807", "9223372036854775808", "1.5", "1e2", " 1"}
 var c38BadIDs = []string{"abc", "-1", "0", "18446744073709551615", "18446744073709551616", "9223372036854775807", "9223372036854775808", "1.5", "0x10", "1e3", " 1", "+1", "01", "１", "9999", "1%00", "null", strings.Repeat("9", 400)}
-var c38BadLedgers = []string{"L 1", "_x", "-", strings.Repeat("l", 63), strings.Repeat("l", 64), strings.Repeat("l", 5000), "é", "l.1", "l%2F1", "_", "_info", "_system", "l1;", "l\x00", "..", ".", "*", "%", "null", "V2", "v2", "transactions", "l1%20", "@@U@@new"}
+var c38BadLedgers = []string{"L 1", "_x", "-", strings.Repeat("l", 63), strings.Repeat("l", 64), strings.Repeat("l", 5000), "é", "l.1", "l%2F1", "_", "_info", "_system", "l\x00", "..", "*", "v2", "@@U@@new"}
 var c38BadKeys = []string{"", " ", "a b", "é", "a/b", "a%2Fb", "..", ".", strings.Repeat("k", 5000), "k\x00", "k'", `k"`, "k]", "[k", "k[0]", "com.formance.spec/state/reverts", "$k", "k.k", "null", "\xff"}
 var c38ContentTypes = []string{"text/plain", "application/xml", "multipart/form-data; boundary=x", "", "garbage", "application/json; charset=utf-16", "application/json;", ";", "application/x-www-form-urlencoded",
 	"application/vnd.formance.ledger.api.v2.bulk+script-stream", "application/vnd.formance.ledger.api.v2.bulk+json-stream", "application/vnd.formance.ledger.api.v2.bulk+unknown", "APPLICATION/JSON", "application/json, text/plain", strings.Repeat("a", 3000) + "/json", "application/octet-stream"}
@@ -696,19 +696,19 @@ func c38FilterMutants(resource, valid string, level int, emit func(class, desc, 
 		if level >= 1 {
 			continue
 		}
-		for _, v := range []string{`"x"`, `""`, `"users:"`, `"users::"`, `"..."`, `1`, `-1`, `1.5`, `1e400`, `18446744073709551616`, `true`, `null`, `[]`, `["x"]`, `{}`, `{"a":1}`, `"2030-01-01T00:00:00Z"`, `"notadate"`, `"\u0000"`, `"a\"b'c"`} {
+		for _, v := range []string{`"x"`, `""`, `"users::"`, `"..."`, `1`, `-1`, `1.5`, `1e400`, `18446744073709551616`, `true`, `null`, `[]`, `{}`, `"notadate"`, `"a\"b'c"`} {
 			emit("filter_value_type", fmt.Sprintf("$match %q = %s", f, c38Trunc(v, 30)), c38KV1("$match", f, v))
 		}
-		for _, v := range []string{`"x"`, `1.5`, `true`, `null`, `[1]`, `{}`, `"notadate"`, `18446744073709551616`} {
+		for _, v := range []string{`"x"`, `1.5`, `true`, `null`, `[1]`, `"notadate"`} {
 			emit("filter_value_type", fmt.Sprintf("$lt %q = %s", f, v), c38KV1("$lt", f, v))
 		}
-		for _, v := range []string{`"x"`, `1`, `null`, `{}`, `[]`, `[[]]`, `[null]`, `[{}]`, `[true]`, `[1.5]`, `["x","y"]`} {
+		for _, v := range []string{`"x"`, `null`, `{}`, `[]`, `[[]]`, `[null]`, `[1.5]`, `["x","y"]`} {
 			emit("filter_value_type", fmt.Sprintf("$in %q = %s", f, v), c38KV1("$in", f, v))
 		}
-		for _, v := range []string{`1`, `null`, `[]`, `"%"`, `"\\\\"`} {
+		for _, v := range []string{`1`, `null`, `"%"`, `"\\\\"`} {
 			emit("filter_value_type", fmt.Sprintf("$like %q = %s", f, v), c38KV1("$like", f, v))
 		}
-		for _, v := range []string{`"yes"`, `1`, `null`, `false`, `"k1"`} {
+		for _, v := range []string{`"yes"`, `1`, `null`} {
 			emit("filter_value_type", fmt.Sprintf("$exists %q = %s", f, v), c38KV1("$exists", f, v))
 		}
 	}
